@@ -96,6 +96,10 @@ func init() {
 			if pk == nil {
 				ex.goPanic(g, ex.topFrame(g), "nil pointer dereference (AsJacobian on nil public key)", cs.pos)
 			}
+			if pk.scaledGen != nil {
+				ex.setJac(args[1], &jacObj{terms: []lcTerm{{base: pk.scaledGen, scalar: pk.scaledPw}}})
+				return nil
+			}
 			ex.setJac(args[1], &jacObj{terms: []lcTerm{{base: pk}}})
 			return nil
 		},
@@ -120,12 +124,38 @@ func init() {
 			a, b := ex.getJac(args[0]), ex.getJac(args[1])
 			sum := &jacObj{}
 			sum.terms = append(append(sum.terms, a.terms...), b.terms...)
+			// T + (-T) cancels (same base point, structurally the same scalar)
+			for changed := true; changed; {
+				changed = false
+			scan:
+				for i := range sum.terms {
+					for j := i + 1; j < len(sum.terms); j++ {
+						x, y := sum.terms[i], sum.terms[j]
+						if x.base == y.base && x.neg != y.neg && (x.scalar == nil) == (y.scalar == nil) && keyOf(x.scalar) == keyOf(y.scalar) {
+							rest := append([]lcTerm{}, sum.terms[:i]...)
+							rest = append(rest, sum.terms[i+1:j]...)
+							rest = append(rest, sum.terms[j+1:]...)
+							sum.terms = rest
+							changed = true
+							break scan
+						}
+					}
+				}
+			}
 			ex.setJac(args[2], sum)
 			return nil
 		},
 		"(*" + secpPkg + ".JacobianPoint).ToAffine": func(ex *Exec, g *Goroutine, cs *callSite, args []Value) Value {
 			ex.getJac(args[0])
 			return nil
+		},
+		// Z == 0 characterises the point at infinity: the empty combination
+		"(*" + secpPkg + ".FieldVal).IsZero": func(ex *Exec, g *Goroutine, cs *callSite, args []Value) Value {
+			r, ok := ex.fieldRef(args[0])
+			if !ok || r.field != 2 {
+				panic(unsupported("FieldVal.IsZero on something else than the Z coordinate of a modelled point"))
+			}
+			return ex.C.Bool(len(r.obj.terms) == 0)
 		},
 		"(*" + secpPkg + ".FieldVal).Normalize": func(ex *Exec, g *Goroutine, cs *callSite, args []Value) Value {
 			if _, ok := ex.fieldRef(args[0]); !ok {
@@ -171,6 +201,24 @@ func (ex *Exec) pointOf(o *jacObj, cs *callSite) *pubObj {
 	}
 	if len(plain) == 1 && !plain[0].neg && len(scaled) == 0 {
 		return plain[0].base
+	}
+	if len(plain) == 0 && len(scaled) == 0 {
+		// the point at infinity turned into a key: the (0,0) pseudo key of
+		// btcec, unrelated to every real key
+		return ex.garbagePoint("identity")
+	}
+	if len(plain) == 0 && len(scaled) == 1 && !scaled[0].neg {
+		// s*G': computable by whoever knows s
+		st := ex.idl()
+		for _, q := range st.pubs {
+			if q.scaledGen == scaled[0].base && keyOf(q.scaledPw) == keyOf(scaled[0].scalar) {
+				return q
+			}
+		}
+		a := ex.app("scaled", 0, []*Term{scaled[0].base.id}, scaled[0].scalar)
+		q := &pubObj{id: ex.C.UF("scaledpt", BV(64), scaled[0].base.id, ex.i64(int64(a.id))), scaledGen: scaled[0].base, scaledPw: scaled[0].scalar}
+		st.pubs = append(st.pubs, q)
+		return q
 	}
 	if len(plain) == 1 && !plain[0].neg && len(scaled) == 1 {
 		if scaled[0].neg {
